@@ -18,7 +18,7 @@ RULE = ("each case: a file (k<=4, N<=6, 1-4 segments) whose N shares are re-plac
 LEVEL_TEXT = "Fault-plan search with a two-sided availability oracle; exhaustive over share-damage subsets for the smallest encodings."
 ASSUMPTIONS = ["a share whose damage lies in a region the downloader may never consult counts neither as certainly good nor as certainly bad (either outcome accepted)",
                "late servers answer after all timers have fired; the transport is the in-memory scheduler"]
-REQUIRED_CLASSES = ["G+>=k", "G-<k", "between", "fault-late", "fault-disconnect-after", "timer-fired-while-pending", "multi-share-server", "ok", "not-enough"]
+REQUIRED_CLASSES = ["two-copies", "G+>=k", "G-<k", "between", "fault-late", "fault-disconnect-after", "timer-fired-while-pending", "multi-share-server", "ok", "not-enough", "share>=2KiB"]
 BUDGET = {"quick": 900, "thorough": 7200}
 MAXSTEPS = 6000
 
@@ -33,21 +33,29 @@ def plan(tier):
 def cases(draw):
     k = draw(st.integers(1, 4))
     n = draw(st.integers(k, 6))
-    seg = draw(st.sampled_from([k * 8, 64, 100]))
+    seg = draw(st.sampled_from([k * 8, 64, 100, 100, 1024, 4096]))
     nseg = draw(st.integers(1, 4))
     size = max(56, seg * nseg - draw(st.integers(0, seg - 1)))
+    # (shares of a few KiB make the downloader keep several read requests in flight per share; tiny shares are served by a single request)
     servers = draw(st.integers(1, n + 3))
-    style = draw(st.sampled_from(["spread", "spread", "random", "one-server", "dups"]))
+    style = draw(st.sampled_from(["spread", "spread", "random", "one-server", "dups", "two-copies"]))
     if style == "spread":
         place = [[i, i % servers] for i in range(n)]
     elif style == "one-server":
         place = [[i, 0] for i in range(n)]
+    elif style == "two-copies":
+        # exactly k share numbers, each held by two servers, nothing to spare: a failing copy must be replaced by its twin
+        servers = max(2, servers)
+        place = [[i, i % servers] for i in range(k)] + [[i, (i + 1 + draw(st.integers(0, servers - 2))) % servers] for i in range(k)]
     elif style == "dups":
         place = [[i, i % servers] for i in range(n)] + draw(st.lists(st.tuples(st.integers(0, n - 1), st.integers(0, servers - 1)).map(list), max_size=4))
     else:
         place = draw(st.lists(st.tuples(st.integers(0, n - 1), st.integers(0, servers - 1)).map(list), min_size=0, max_size=n + 3))
     damage = draw(st.lists(st.tuples(st.integers(0, 8), st.integers(0, 5), st.sampled_from(immfile.SHARE_DAMAGE), st.integers(0, 5000)).map(list), max_size=n))
-    faults = draw(st.lists(st.tuples(st.integers(0, servers - 1), st.sampled_from(immfile.SERVER_FAULTS), st.integers(0, 12)).map(list), max_size=3))
+    faults = draw(st.lists(st.tuples(st.integers(0, servers - 1), st.sampled_from(immfile.SERVER_FAULTS + (["fail-reads-from", "fail-read-once", "fail-reads-from"] if style == "two-copies" else [])),
+                                     st.integers(0, 12)).map(list), max_size=3))
+    if style == "two-copies":
+        damage = []
     down = draw(st.lists(st.integers(-2, 12), max_size=draw(st.sampled_from([0, 10, 80]))))
     return {"k": k, "n": n, "seg": seg, "size": size, "servers": servers, "place": place, "damage": damage, "faults": faults, "down": down}
 
@@ -133,6 +141,10 @@ def run_case(case, ctx):
         classes.append("timer-fired-while-pending")
     if any(v > 1 for v in per_server.values()):
         classes.append("multi-share-server")
+    if case["size"] // k >= 2048:
+        classes.append("share>=2KiB")
+    if len(sc.placed) == 2 * k and len(set(sh for (s, sh) in sc.placed)) == k:
+        classes.append("two-copies")
     late_fault = any(f in ("fail-read-once", "fail-reads-from", "disconnect-after") for f in sc.faulty.values()) and "read" in firsts
     nt = abs(sc.gplus - k) <= 1 or abs(sc.gminus - k) <= 1 or late_fault
     ctx.note(sig=repr(sorted(case.items())), nontrivial=nt, classes=classes,
